@@ -115,8 +115,64 @@ func credValue(r *core.Rand, base string) string {
 	return r.Pick([]string{"Basic " + t, t})
 }
 
+var whitespace = []string{" ", "\t", "  \t ", "   "}
+
+func padding(r *core.Rand) string {
+	// never hex-like: padding must not look like a token
+	return strings.Repeat(r.Pick([]string{"x", "zq ", "GHIJKLMNOP", "=;, "}), 200+r.Intn(600))
+}
+
+// genValues builds the value list of one header field: none, one, repeated, many; each value is
+// a secret-bearing string (mk), empty, white space only, very long (secret at the start, in the
+// middle or at the end of the padding) or plain text — in every position of the list.
+func genValues(r *core.Rand, mk func() string) []string {
+	n := 1
+	switch r.Intn(10) {
+	case 0:
+		n = 0
+	case 1, 2:
+		n = 2
+	case 3:
+		n = 3
+	case 4:
+		n = 4 + r.Intn(9)
+	}
+	vals := []string{}
+	for j := 0; j < n; j++ {
+		switch r.Intn(20) {
+		case 0, 1, 2:
+			vals = append(vals, "")
+		case 3:
+			vals = append(vals, r.Pick(whitespace))
+		case 4:
+			switch r.Intn(3) {
+			case 0:
+				vals = append(vals, mk()+padding(r))
+			case 1:
+				vals = append(vals, padding(r)+mk())
+			default:
+				vals = append(vals, padding(r)+mk()+padding(r))
+			}
+		case 5:
+			vals = append(vals, r.Pick([]string{"plain", "-", "0", "none"}))
+		case 6:
+			vals = append(vals, r.Pick(whitespace)+mk()+r.Pick(whitespace))
+		default:
+			vals = append(vals, mk())
+		}
+	}
+	if n >= 2 && r.Chance(1, 3) {
+		// make sure "empty first / middle / last, the secret elsewhere" is frequent
+		vals[[]int{0, n / 2, n - 1}[r.Intn(3)]] = r.Pick([]string{"", "", " "})
+		if strings.TrimSpace(strings.Join(vals, "")) == "" {
+			vals[n-1-r.Intn(2)%n] = mk()
+		}
+	}
+	return vals
+}
+
 // genHeaders builds a header table with credential headers in many spellings plus decoys.
-// plain restricts keys and values to what may travel over a real HTTP/1.1 connection.
+// plain restricts keys to what may travel over a real HTTP/1.1 connection.
 func genHeaders(r *core.Rand, plain bool, names []string, maxCred int) hdrTab {
 	h := hdrTab{}
 	n := r.Intn(maxCred + 1)
@@ -135,27 +191,11 @@ func genHeaders(r *core.Rand, plain bool, names []string, maxCred int) hdrTab {
 		} else {
 			k = casing(r, base)
 		}
-		nv := 1
-		switch r.Intn(6) {
-		case 0:
-			nv = 0
-		case 1:
-			nv = 2
-		case 2:
-			nv = 2 + r.Intn(3)
-		}
-		if plain && nv == 0 {
-			nv = 1
-		}
-		vals := []string{}
-		for j := 0; j < nv; j++ {
-			vals = append(vals, credValue(r, base))
-		}
-		h[k] = vals
+		h[k] = genValues(r, func() string { return credValue(r, base) })
 	}
 	for i := r.Intn(3); i > 0; i-- {
-		k := r.Pick([]string{"Accept", "User-Agent", "X-Trace", "x-lower", "Content-Type", "X-Rep"})
-		h[k] = []string{r.Pick([]string{"*/*", "verif", "text/plain", "1", "pub-" + newToken(r)[:8]})}
+		k := r.Pick([]string{"Accept", "User-Agent", "X-Trace", "x-lower", "Content-Type", "X-Rep", "Via", "X-Forwarded-For"})
+		h[k] = genValues(r, func() string { return r.Pick([]string{"*/*", "verif", "text/plain", "1", "pub-" + newToken(r)[:8]}) })
 	}
 	return h
 }
@@ -164,7 +204,7 @@ func genHdrCase(r *core.Rand) string {
 	h := genHeaders(r, false, credBase, 4)
 	if r.Chance(1, 3) {
 		k := r.Pick(nearMiss)
-		h[k] = []string{"near-" + newToken(r)[:12]}
+		h[k] = genValues(r, func() string { return "near-" + newToken(r)[:12] })
 	}
 	if r.Chance(1, 30) {
 		h = hdrTab{}
@@ -388,7 +428,7 @@ var siteRemotes = []string{"192.0.2.1:1234", "10.1.2.3:80", "[2001:db8:1:2::abcd
 
 func genSite(r *core.Rand) *script {
 	sc := &script{creds: r.Chance(1, 4), e: r.Intn(3), hc: r.Pick([]string{"d", "d", "n", "k", "w", "m"}), rw: r.Intn(3),
-		route: r.Pick([]string{"ok", "err", "herr", "px", "px", "pxe", "rl", "rle"}), remote: r.Pick(siteRemotes)}
+		route: r.Pick([]string{"ok", "err", "herr", "px", "px", "pxe", "rl", "rle", "fcg"}), remote: r.Pick(siteRemotes)}
 	if r.Chance(1, 3) {
 		sc.e = 0
 	}
@@ -411,6 +451,25 @@ func genSite(r *core.Rand) *script {
 	if sc.route == "px" || sc.route == "rl" {
 		sc.tup = genHeaders(r, plain, []string{"set-cookie", "set-cookie", "cookie", "proxy-authorization", "authorization"}, 3)
 	}
+	if len(sc.tup) > 0 && sc.status != 204 && r.Chance(1, 4) {
+		// the upstream also sends trailer fields, announced or not
+		for i := 1 + r.Intn(2); i > 0; i-- {
+			base := r.Pick([]string{"Set-Cookie", "Set-Cookie", "Authorization", "X-Checksum"})
+			pre := unannounced
+			if i == 1 && r.Chance(1, 2) {
+				// at most one announced trailer: reverse_proxy builds the `Trailer` response header by
+				// ranging over a map, so two announced names come out in either order
+				pre = announced
+			}
+			vals := genValues(r, func() string { return credValue(r, strings.ToLower(base)) })
+			for j := range vals { // net/http refuses "suspiciously long" trailers
+				if len(vals[j]) > 120 {
+					vals[j] = vals[j][:120]
+				}
+			}
+			sc.tup[pre+base] = vals
+		}
+	}
 	for _, t := range []hdrTab{sc.tin, sc.tadd, sc.tset, sc.tup} {
 		for k := range t {
 			if !validText(k) {
@@ -418,10 +477,6 @@ func genSite(r *core.Rand) *script {
 			}
 		}
 	}
-	sortVals(sc.tin)
-	sortVals(sc.tadd)
-	sortVals(sc.tset)
-	sortVals(sc.tup)
 	if r.Chance(1, 2) {
 		var ps []string
 		for i := 1 + r.Intn(3); i > 0; i-- {
